@@ -641,3 +641,97 @@ Proof.
   - intros H. apply ok_sub_set0, in_map_iff in H. destruct H as ([nm q] & E & H). simpl in E. subst. eauto.
   - intros (nm & H). apply ok_sub_set0. apply (in_map snd) in H. exact H.
 Qed.
+
+(* ------------------------------------------------------------------ statements used by Props/Properties_C16.v *)
+Lemma names_unique n w : Inv n w -> forall m,
+  NoDup (map fst (param_kv (getm w m)) ++ map fst (submodel_kv (getm w m))).
+Proof. intros (_ & Hok & _) m. apply (ok_names _ _ (Hok m)). Qed.
+
+Lemma acyclic_both n w : Inv n w ->
+  (forall x, ~ reaches (children w) x x) /\ (forall m k, ~ reach_model w m k m).
+Proof.
+  intros HI. split.
+  - intros x [l P]. destruct HI as (_ & _ & Hac). apply (Hac x l P).
+  - apply (no_self_containment n w HI).
+Qed.
+
+Lemma readd_identical_noop n w m nm : Inv n w -> m < n ->
+  (forall p, In (nm, p) (param_kv (getm w m)) -> add_param m nm p w = (Some tt, w)) /\
+  (forall c, In (nm, c) (submodel_kv (getm w m)) -> add_model m nm c w = (Some tt, w)).
+Proof.
+  intros HI Hm. split.
+  - intros p Hin. destruct (add_param_cases n w m nm p HI Hm) as [(_ & E)|[(H & _)|(H & _)]]; auto; exfalso.
+    + tauto.
+    + apply H. unfold names_of, pkeys. apply in_or_app. left. apply (in_map fst) in Hin. exact Hin.
+  - intros c Hin. destruct (add_model_cases n w m nm c HI Hm) as [(_ & E)|[(H & _)|(_ & _ & H & _)]]; auto; exfalso.
+    + tauto.
+    + apply H. unfold names_of, skeys. apply in_or_app. right. apply (in_map fst) in Hin. exact Hin.
+Qed.
+
+Lemma rejected_add_unchanged w m nm : m < length w ->
+  (forall p w', add_param m nm p w = (None, w') -> w' = w) /\
+  (forall c w', add_model m nm c w = (None, w') -> w' = w).
+Proof. intros Hm. split; intros x w'; [apply add_param_err_preserves|apply add_model_err_preserves]; auto. Qed.
+
+Lemma enumeration_exact n w m : Inv n w ->
+  exists l, get_all_parameters w m = Some l /\ get_trainable_parameters w m = Some l /\
+            sorted l /\ NoDup (map fst l) /\ forall k p, In (k, p) l <-> reach_param w m k p.
+Proof.
+  intros HI. destruct (get_all_spec n w HI m) as (l & E & Hs & Hl). exists l.
+  unfold get_trainable_parameters. repeat split; auto; try apply Hl. apply sorted_nodup. exact Hs.
+Qed.
+
+Lemma lookup_exact n w m names : Inv n w ->
+  (forall p, get_parameter w m names = Some p <-> reach_param w m names p) /\
+  (forall c, get_submodel w m names = Some c <-> reach_model w m names c) /\
+  (forall l p, get_all_parameters w m = Some l -> (get_parameter w m names = Some p <-> In (names, p) l)) /\
+  get_parameter w m [] = None /\ get_submodel w m [] = None.
+Proof.
+  intros HI. split; [intros p; apply (get_parameter_spec n w HI)|].
+  split; [intros c; apply (get_submodel_spec n w HI)|]. split; [|split; reflexivity].
+  intros l p E. destruct (get_all_spec n w HI m) as (l0 & E0 & _ & Hl). rewrite E in E0. injection E0 as <-.
+  rewrite Hl. apply (get_parameter_spec n w HI).
+Qed.
+
+(* optimizers: every sequence of add(param) / add(model on a reachable world) calls *)
+Inductive opt_reachable (okp : pid -> bool) : opt -> Prop :=
+| or_empty : opt_reachable okp empty_opt
+| or_param o p : opt_reachable okp o -> opt_reachable okp (snd (opt_add_param okp p o))
+| or_model o n w m : opt_reachable okp o -> reachable_world n w ->
+    opt_reachable okp (snd (opt_add_model okp w m o)).
+
+Lemma opt_reachable_ok okp o : opt_reachable okp o -> opt_ok o.
+Proof.
+  induction 1 as [|o p _ IH|o n w m _ IH Hw].
+  - apply opt_ok_empty.
+  - apply opt_add_param_ok. exact IH.
+  - apply (opt_add_model_spec n w okp m o (reachable_Inv n w Hw) IH).
+Qed.
+
+Lemma optimizer_add_once okp o : opt_reachable okp o ->
+  NoDup (oparams o) /\
+  (forall p, In p (oparams o) -> count_occ Nat.eq_dec (ocfg o) p = 1) /\
+  (forall p, In p (ocfg o) -> In p (oparams o)).
+Proof.
+  intros H. apply opt_reachable_ok in H. pose proof H as (_ & H2 & H3).
+  split; auto. split; [apply opt_once; auto|]. intros p. apply H3.
+Qed.
+
+Lemma optimizer_add_param_outcome okp p o :
+  opt_add_param okp p o =
+    if mem_id p (oparams o) then (Some tt, o)
+    else if okp p then (Some tt, mkO (p :: oparams o) (p :: ocfg o))
+    else (None, o).
+Proof. apply opt_add_param_normal. Qed.
+
+Lemma optimizer_add_model okp n w m o : Inv n w -> opt_reachable okp o ->
+  let r := opt_add_model okp w m o in
+  (forall p, In p (oparams o) -> In p (oparams (snd r))) /\
+  (forall p, In p (oparams (snd r)) ->
+     In p (oparams o) \/ ((exists k, reach_param w m k p) /\ okp p = true)) /\
+  (fst r = Some tt <-> forall k p, reach_param w m k p -> In p (oparams o) \/ okp p = true) /\
+  (fst r = Some tt -> forall k p, reach_param w m k p -> In p (oparams (snd r))).
+Proof.
+  intros HI Ho. apply opt_reachable_ok in Ho.
+  destruct (opt_add_model_spec n w okp m o HI Ho) as (_ & B & C & D & F). cbv zeta. auto.
+Qed.
